@@ -358,6 +358,10 @@ class Negative(Term):
     def is_aggregate(self) -> bool | None:  # type:ignore[override]
         return self.term.is_aggregate
 
+    def nodes_(self) -> Iterator[NodeT]:
+        yield self  # type:ignore[misc]
+        yield from self.term.nodes_()
+
     @builder
     def replace_table(  # type:ignore[return]
         self, current_table: "Table" | None, new_table: "Table" | None
@@ -554,6 +558,10 @@ class Values(Term):
     def __init__(self, field: str | "Field") -> None:
         super().__init__(None)
         self.field = Field(field) if not isinstance(field, Field) else field
+
+    def nodes_(self) -> Iterator[NodeT]:
+        yield self  # type:ignore[misc]
+        yield from self.field.nodes_()
 
     @builder
     def replace_table(  # type:ignore[return]
@@ -1499,6 +1507,11 @@ class AggregateFunction(Function):
         self._filters: list = []
         self._include_filter = False
 
+    def nodes_(self) -> Iterator[NodeT]:
+        yield from super().nodes_()
+        for criterion in self._filters:
+            yield from criterion.nodes_()
+
     @builder
     def filter(self, *filters: Any) -> AnalyticFunction:  # type:ignore[return]
         self._include_filter = True
@@ -1548,6 +1561,15 @@ class AnalyticFunction(AggregateFunction):
         self._orderbys: list[tuple] = []
         self._include_filter = False
         self._include_over = False
+
+    def nodes_(self) -> Iterator[NodeT]:
+        yield from super().nodes_()
+        for term in self._partition:
+            if hasattr(term, "nodes_"):
+                yield from term.nodes_()
+        for term, _ in self._orderbys:
+            if hasattr(term, "nodes_"):
+                yield from term.nodes_()
 
     @builder
     def over(self, *terms: Any) -> "Self":  # type:ignore[return]
@@ -1849,6 +1871,10 @@ class AtTimezone(Term):
         self.field = Field(field) if not isinstance(field, Field) else field
         self.zone = zone
         self.interval = interval
+
+    def nodes_(self) -> Iterator[NodeT]:
+        yield self  # type:ignore[misc]
+        yield from self.field.nodes_()
 
     @builder
     def replace_table(  # type:ignore[return]
